@@ -13,7 +13,8 @@ TFReset == IsEvent("freset") /\ FReset /\ UNCHANGED pidvars
 TOneToOne == IsEvent("onetoone") /\ UNCHANGED <<pidvars, fvars>> /\ (OneToOneOK(Tr[l].inp, Tr[l].out, Tr[l].byTarget) = TRUE)
 TDuration == /\ IsEvent("duration") /\ UNCHANGED <<pidvars, fvars>>
              /\ Tr[l].fromMicro = FromMicro(Tr[l].us) /\ Tr[l].toMicro = ToMicro(Tr[l].ns)
-TraceNext == TReset \/ TPid \/ TFilter \/ TFReset \/ TOneToOne \/ TDuration
+TRansac == IsEvent("ransac") /\ UNCHANGED <<pidvars, fvars>> /\ (RansacOK(Tr[l]) = TRUE)
+TraceNext == TRansac \/ TReset \/ TPid \/ TFilter \/ TFReset \/ TOneToOne \/ TDuration
 TraceSpec == TraceInit /\ [][TraceNext]_tvars
 TraceAccepted == TLCGet("stats").diameter - 1 = Len(Tr)
 =============================================================================
